@@ -1,5 +1,5 @@
 """Contracts for diameter/message/_base.py: header codec, message codec, to_answer, AVP search (C02, C04, C20)."""
-from pyvc.spec import REG as R, Raise
+from pyvc.spec import REG as R, Raise, Clause
 from pyvc.smt import INT, BOOL, I, Eq, Or, app
 from pyvc.values import VRef, VBool, VInt, VAny, VPy
 from pyvc.state import Unsupported
@@ -123,6 +123,9 @@ def _attr_opaque(ex, st, base, attr, k, where):
         from pyvc.values import VStr
         ex.decls.fun("class_name", [INT], STR)
         return k(st, VStr(app("class_name", STR, base.t)))
+    if getattr(base, "tag", None) == "msgclass" and attr == "code":
+        ex.decls.fun("class_code", [INT], INT)
+        return k(st, VInt(app("class_code", INT, base.t)))
     raise Unsupported(f"attribute {attr} of an opaque value at {where}")
 
 
@@ -406,3 +409,36 @@ R.lemma_ob("message-re-encodes", vars={"b": "bytes", "w": "bytes"},
            note="frame level: Message.as_bytes (= hdr_wire(fields, 20 + |body|) ++ wires(avps)) applied to the header fields "
                 "that Message.from_bytes decodes and to a body that re-encodes to b[20:] gives b again, provided the length "
                 "field of b is its total length")
+
+
+# ---- run-time registration of a command class ------------------------------------------------------------------------
+@R.specfn("code_of_class")
+def _code_of_class(ex, st, tok):
+    ex.decls.fun("class_code", [INT], INT)
+    return VInt(app("class_code", INT, ex.unwrap(tok).t))
+
+
+R.contract("diameter.message.commands.register", params={"cmd_class": "Any:msgclass"}, ghost={"c2": "int"},
+           ensures=[("the-registered-class-is-used-for-its-code",
+                     "code_of_class(cmd_class) in all_commands and all_commands[code_of_class(cmd_class)] == cmd_class"),
+                    ("other-codes-untouched",
+                     "implies(c2 != code_of_class(cmd_class), (c2 in all_commands) == old(c2 in all_commands) and "
+                     "implies(c2 in all_commands, all_commands[c2] == old(all_commands[c2])))")],
+           raises=[Raise("RuntimeError", "True", "may")],
+           ensures_exc={"RuntimeError": [("a-refused-class-changes-nothing", "unchanged(all_commands)")]},
+           modifies=["dict:all_commands"], props=["C02"],
+           note="with Message.from_bytes' dispatch (verified for an arbitrary table) a class registered at run time - also "
+                "for a code that already had a class - is the one instantiated afterwards")
+
+
+# multi-element search paths: the recursion descends into a matching grouped AVP's members with exactly the REST of the path
+# (a call-site obligation on the recursive call; with the single-element exactness above, at_path follows by induction on
+# the path length - the induction is not mechanised)
+import copy as _copy2
+_tr = _copy2.copy(R.contracts["_traverse_avp_tree"])
+_tr.requires = list(_tr.requires) + [Clause("descends-with-the-rest-of-the-path",
+                                            "items(code_and_vendor_path) == items(parent)[1:]")]
+_tr.ghost = _copy2.copy(_tr.ghost)
+_tr.ghost["parent"] = _pk("List[Any:pair]")
+R.contracts["_traverse_avp_tree"].call_overrides = {"_traverse_avp_tree": _tr}
+R.contracts["_traverse_avp_tree"].ghost_bind = {"_traverse_avp_tree": {"parent": "code_and_vendor_path"}}
